@@ -301,7 +301,11 @@ impl Node {
     /// One tick of the state machine; `Err` = the cycle returned an error (state kept / re-init), which is normal
     /// operation ("not enough signatures yet", ...).
     pub async fn tick(&mut self) -> Result<(), String> {
-        let r = self.runtime.cycle().await.map_err(|e| format!("{e:?}"));
+        use futures::FutureExt;
+        let r = match std::panic::AssertUnwindSafe(self.runtime.cycle()).catch_unwind().await {
+            Ok(r) => r.map_err(|e| format!("{e:?}")),
+            Err(p) => Err(format!("panic: {}", panic_text(p))),
+        };
         tokio::task::yield_now().await;
         r
     }
@@ -367,12 +371,16 @@ impl Node {
             won_indexes: sig.won_indexes.clone(),
             signed_message: signed_message.to_string(),
         };
-        let resp = warp::test::request()
+        use futures::FutureExt;
+        let fut = warp::test::request()
             .method("POST")
             .path("/aggregator/register-signatures")
             .json(&msg)
-            .reply(&self.routes)
-            .await;
+            .reply(&self.routes);
+        let resp = match std::panic::AssertUnwindSafe(fut).catch_unwind().await {
+            Ok(r) => r,
+            Err(p) => return Submitted::Refused(format!("panic: {}", panic_text(p))),
+        };
         match resp.status().as_u16() {
             201 => Submitted::Registered,
             202 => Submitted::Buffered,
@@ -393,7 +401,11 @@ impl Node {
             Duration::from_millis(1),
             self.logger.clone(),
         );
-        processor.process_signatures().await.map_err(|e| format!("{e:?}"))
+        use futures::FutureExt;
+        match std::panic::AssertUnwindSafe(processor.process_signatures()).catch_unwind().await {
+            Ok(r) => r.map_err(|e| format!("{e:?}")),
+            Err(p) => Err(format!("panic: {}", panic_text(p))),
+        }
     }
 
     /// Make the open message of `t` expire: push its deadline into the past through the repository (what the
@@ -411,6 +423,17 @@ impl Node {
     pub async fn stop(self) {
         let Node { builder, .. } = self;
         builder.vanish().await;
+    }
+}
+
+/// the message of a caught panic (vcore's hook keeps it quiet and remembers the location)
+pub fn panic_text(p: Box<dyn std::any::Any + Send>) -> String {
+    if let Some(s) = p.downcast_ref::<&str>() {
+        s.to_string()
+    } else if let Some(s) = p.downcast_ref::<String>() {
+        s.clone()
+    } else {
+        "<non-string panic>".into()
     }
 }
 
